@@ -149,6 +149,9 @@ FUNC_ADDRS = {}  # id(PyFunc) -> concrete negative address
 _next_func_addr = [-100000]
 
 
+_GROUND_CACHE = {}
+
+
 class Frame:
     def __init__(self, parent=None, func=None):
         self.vars = {}
@@ -237,7 +240,8 @@ class Run:
             self.assume(f)
 
     def class_axioms(self):
-        if self._ground_axioms is None or self._ground_axioms[0] != len(CLASSES.by_name):
+        n = len(CLASSES.by_name)
+        if _GROUND_CACHE.get("n") != n:
             ax = []
             names = list(CLASSES.by_name)
             for a in names:
@@ -247,19 +251,23 @@ class Run:
                         == z3.BoolVal(CLASSES.is_sub(a, b))
                     )
                 ax.append(core.py_id_name(CLASSES.by_name[a]) == z3.StringVal(a))
-            self._ground_axioms = (len(names), ax)
-        ax = list(self._ground_axioms[1])
+            _GROUND_CACHE["n"] = n
+            _GROUND_CACHE["ax"] = ax
+        tc = getattr(self, "_term_ax", None)
+        if tc is None or tc[0] != n:
+            tc = (n, {})
+            self._term_ax = tc
+        ax = list(_GROUND_CACHE["ax"])
         for c in self.class_terms:
-            ax.append(subclass(c, c))
-            ax.append(subclass(c, CLASSES.addr("object")))
-            for a in CLASSES.by_name:
-                for b in CLASSES.bases.get(a, ()):
-                    ax.append(
-                        z3.Implies(
-                            subclass(c, CLASSES.by_name[a]),
-                            subclass(c, CLASSES.by_name[b]),
-                        )
-                    )
+            k = c.get_id()
+            if k not in tc[1]:
+                lst = [subclass(c, c), subclass(c, CLASSES.addr("object"))]
+                for a in CLASSES.by_name:
+                    for b in CLASSES.bases.get(a, ()):
+                        lst.append(z3.Implies(subclass(c, CLASSES.by_name[a]),
+                                              subclass(c, CLASSES.by_name[b])))
+                tc[1][k] = lst
+            ax.extend(tc[1][k])
         return ax
 
     def note_class_term(self, c):
@@ -288,21 +296,40 @@ class Run:
             s.add(p)
         return s
 
+    def inc_solver(self):
+        """one incremental solver per path for the many small feasibility queries"""
+        if getattr(self, "_inc", None) is None:
+            self._inc = z3.Solver()
+            self._inc.set("timeout", self.opts.get("feas_timeout", 3000))
+            self._inc_pc = 0
+            self._inc_ax = 0
+        key = (len(CLASSES.by_name), len(self.class_terms))
+        if key != self._inc_ax:
+            seen = getattr(self, "_inc_ax_ids", set())
+            for a in self.class_axioms():
+                i = a.get_id()
+                if i not in seen:
+                    seen.add(i)
+                    self._inc.add(a)
+            self._inc_ax_ids = seen
+            self._inc_ax = key
+        for p in self.pc[self._inc_pc:]:
+            self._inc.add(p)
+        self._inc_pc = len(self.pc)
+        return self._inc
+
     def feasible(self, extra=None):
-        s = self.solver(self.opts.get("feas_timeout", 3000))
-        if extra is not None:
-            s.add(extra)
+        s = self.inc_solver()
         t0 = time.time()
-        r = s.check()
+        r = s.check() if extra is None else s.check(extra)
         self.solver_time += time.time() - t0
         self.checks += 1
         return r != z3.unsat
 
     def entails(self, goal):
-        s = self.solver(self.opts.get("feas_timeout", 3000))
-        s.add(z3.Not(goal))
+        s = self.inc_solver()
         t0 = time.time()
-        r = s.check()
+        r = s.check(z3.Not(goal))
         self.solver_time += time.time() - t0
         self.checks += 1
         return r == z3.unsat
@@ -544,6 +571,7 @@ class Run:
     def alloc(self, cls_name=None, cls_term=None):
         a = z3.simplify(self.next_addr)
         self.next_addr = z3.simplify(self.next_addr + 1)
+        self.ghost.setdefault("own_allocs", []).append(a)
         if cls_name is not None:
             self.assume(cls_of(a) == CLASSES.addr(cls_name))
         elif cls_term is not None:
@@ -552,17 +580,17 @@ class Run:
 
     def new_list(self, items):
         a = self.alloc("list")
-        h = self.heap.store("llen", (a,), z3.IntVal(len(items)))
+        h = self.heap.store("llen", (a,), z3.IntVal(len(items)), bump=False)
         for i, it in enumerate(items):
-            h = h.store("lelem", (a, z3.IntVal(i)), self.to_val(it))
+            h = h.store("lelem", (a, z3.IntVal(i)), self.to_val(it), bump=False)
         self.heap = h
         return TV("val", mk_ref(a), "list")
 
     def new_dict(self, pairs, kind="dict"):
         a = self.alloc(kind)
         h = self.heap
-        h = h.store("dklen", (a,), z3.IntVal(0))
-        h = h.with_array("dhas", z3.Store(h.cur["dhas"], a, z3.K(Val, z3.BoolVal(False))))
+        h = h.store("dklen", (a,), z3.IntVal(0), bump=False)
+        h = h.with_array("dhas", z3.Store(h.cur["dhas"], a, z3.K(Val, z3.BoolVal(False))), bump=False)
         self.heap = h
         d = TV("val", mk_ref(a), kind)
         for k, v in pairs:
@@ -591,7 +619,7 @@ class Run:
         a = self.alloc(cls_name, cls_term)
         h = self.heap
         self.heap = h.with_array(
-            "has", z3.Store(h.cur["has"], a, z3.K(core.StrS, z3.BoolVal(False))))
+            "has", z3.Store(h.cur["has"], a, z3.K(core.StrS, z3.BoolVal(False))), bump=False)
         return a
 
     def obj_has(self, a, name, heap=None):
@@ -636,6 +664,9 @@ class Run:
                         nxt = SCHEMAS[b]
                         break
                 sch = nxt
+        star = SCHEMAS.get("*")
+        if star is not None and name in star.fields:
+            return star.fields[name]  # textX-wide naming invariant (e.g. _tx_inh_by is a list)
         return None
 
     def apply_hint_facts(self, tv):
